@@ -60,7 +60,12 @@ func opaqueParts(t *Term, allow map[string]bool) []string {
 		switch x.Op {
 		case "closure":
 			why = "function literal " + x.Name
-		case "unknown", "outparam", "closurewrite", "rec", "any", "freevar", "select":
+		case "zero":
+			// a local array: whatever is read from it was put there by stores or a copy the term does not show
+			if strings.HasPrefix(x.Name, "[") && len(x.Name) > 1 && x.Name[1] >= '0' && x.Name[1] <= '9' {
+				why = "local array " + x.Name + " filled by stores"
+			}
+		case "unknown", "outparam", "closurewrite", "rec", "any", "freevar", "select", "rewritten":
 			if !(x.Op == "outparam" && allow["outparam["+x.Name+"]"]) {
 				why = x.Op + "[" + x.Name + "]"
 			}
@@ -543,6 +548,10 @@ func normText(t *Term) *Term {
 			}
 		}
 		if textual {
+			if cv, isConv := t.V.(*ssa.Convert); isConv && sliceWrittenThrough(cv, 0) {
+				// []byte(text) whose letters are then stored into is no longer that text
+				return &Term{Op: "rewritten", Args: args, V: t.V}
+			}
 			return args[0]
 		}
 	case t.Op == "call" && t.Name == "builtin:append" && len(args) == 2 && args[0].Op == "const" && strings.HasPrefix(args[0].Name, "nil"):
@@ -573,4 +582,38 @@ func normStr(s string) string {
 		return normText(t).String()
 	}
 	return s
+}
+
+// sliceWrittenThrough: an element of the list v (or of a cut of it) is stored into, or v is the
+// destination of a copy, in the function that made it.
+func sliceWrittenThrough(v ssa.Value, depth int) bool {
+	if _, isSlice := v.Type().Underlying().(*types.Slice); !isSlice || depth > 4 || v.Referrers() == nil {
+		return false
+	}
+	for _, r := range *v.Referrers() {
+		switch r := r.(type) {
+		case *ssa.IndexAddr:
+			if r.X != v || r.Referrers() == nil {
+				continue
+			}
+			for _, rr := range *r.Referrers() {
+				if st, ok := rr.(*ssa.Store); ok && st.Addr == r {
+					return true
+				}
+			}
+		case *ssa.Slice:
+			if r.X == v && sliceWrittenThrough(r, depth+1) {
+				return true
+			}
+		case *ssa.Phi:
+			if sliceWrittenThrough(r, depth+1) {
+				return true
+			}
+		case *ssa.Call:
+			if b, ok := r.Call.Value.(*ssa.Builtin); ok && b.Name() == "copy" && len(r.Call.Args) == 2 && r.Call.Args[0] == v {
+				return true
+			}
+		}
+	}
+	return false
 }
